@@ -94,6 +94,11 @@ func (p *networkSimplexProcessor) minSlackNonTreeEdge(edges []*graph.Edge, e *gr
 func (p *networkSimplexProcessor) feasibleTree(g *graph.DGraph) {
 	p.initLayers(g)
 	for {
+		// the tight tree is rebuilt from scratch in every round: an edge kept from an earlier round
+		// could otherwise close a cycle with an edge that has only now become tight
+		for _, e := range g.Edges {
+			e.IsInSpanningTree = false
+		}
 		treeNodes := tightTree(g.Nodes[0], graph.EdgeSet{}, graph.NodeSet{})
 		if len(treeNodes) == len(g.Nodes) {
 			break
